@@ -332,8 +332,18 @@ package vuego
 //@ func (s *Stack) Resolve(expr) (v, ok)
 //@   modifies contents(pathCache.m), held(&pathCache.RWMutex)
 
+// Conditions call registered functions (C13): when the plain evaluation fails, the expression is evaluated with the
+// functions in the environment; an unknown function or an error returned by one is fatal and fails the render.
+//@ func (v *Vue) evalExpr(ctx, expr) (r, fatal, err)
+//@   modifies caches(v)
+//@   ensures C13.cond.fatal.is.error: fatal ==> err != nil
+//@ func unknownFunction(expr, env) (r)
+//@   modifies nothing
+//@ func isExprBuiltin(name) (r)
+//@   modifies nothing
 //@ func (v *Vue) evalConditionExpr(ctx, expr) (r, err)
 //@   modifies caches(v)
+//@   assert C13.cond.fatal.reported: !fatal at "call IsTruthy"
 //@ func (v *Vue) evalCondition(ctx, expr) (r, err)
 //@   modifies caches(v)
 //@   assert C13.uniform.vif: $arg1 == expr at "call evalConditionExpr"
